@@ -126,6 +126,36 @@ def jobs(tier, seed):
                               cls=cls_name, opts={'raises': 'min', 'fold': False, 'discards': ('none',)}, dev_bound=6 if not th else 7))
     for cls_name, plan in SPLIT.items():
         out.append(_j('split-two-halves', kind='split', cls=cls_name, plan=plan))
+    # split and double-board showdowns with a side pot: every seating of hand templates (a low that only one player makes, two
+    # high hands each best on a different board, a hand that makes nothing) x every seat being the short stack; the pots
+    # are judged by the layered reference award with the independent evaluator (a half exists only among a pot's contenders)
+    from .. import dealplan as D
+    from itertools import permutations
+    OMAHA = {'low': ['As', '2s', '6d', '7d'], 'hiA': ['Qs', 'Qh', 'Js', 'Th'], 'hiB': ['Ks', 'Kd', '9h', '9c'],
+             'none': ['Td', 'Tc', '5s', '5h']}
+    BOARDS = [['3h', '4d', '8c', 'Jc', 'Qd'], ['9s', '9d', 'Ts', 'Jh', 'Kh']]
+    STUD = {'low': ['As', '2s', '3d', '4d', '6h', 'Kc', 'Qc'], 'hiA': ['Qs', 'Qh', 'Qd', '9c', '9d', 'Jh', 'Th'],
+            'hiB': ['Ks', 'Kd', 'Kh', '8c', '8d', '7s', '5c'], 'none': ['Jd', 'Tc', '9s', '7h', '5s', '4c', '2h']}
+    for cls_name, tpl, nbs in [('FixedLimitOmahaHoldemHighLowSplitEightOrBetter', OMAHA, (2, 1)),
+                               ('PotLimitOmahaHoldem', OMAHA, (2,)),
+                               ('FixedLimitSevenCardStudHighLowSplitEightOrBetter', STUD, (1,))]:
+        for nb in nbs:
+            for short in range(3):
+                p = params_for(cls_name, 2, 4, 3)
+                p['raw_starting_stacks'] = tuple(2 if i == short else 20 for i in range(3))
+                if nb > 1:
+                    p['starting_board_count'] = nb
+                cfg = {'game': cls_name, 'autos': 'ALL', 'p': p}
+                dest = D.destinations(cfg)
+                for names in permutations(sorted(tpl), 3):
+                    if not th and 'none' in names and nb == 1 and names.index('none') != short:
+                        continue
+                    place = {('hole', i): tpl[names[i]] for i in range(3)}
+                    if tpl is OMAHA:
+                        for b in range(nb):
+                            place[('board', b)] = BOARDS[b]
+                    out.append(_j(f'showdown-side-pot-{V.VARIANTS[cls_name][0] or cls_name}-{nb}b', dict(cfg, plan=D.plan(dest, place)),
+                                  kind='showdown', cls=cls_name, opts={'raises': 'min', 'fold': False}, dev_bound=2))
     # eight-handed stud: seventh street with and without a fold (own down card from deck + reserve vs one community card)
     for cls_name, spec in V.VARIANTS.items():
         if spec[7] == 'bring_in':
@@ -246,6 +276,10 @@ def run_job(job):
         return run_static(job)
     if job['kind'] == 'split':
         return run_split(job)
+    if job['kind'] == 'showdown':
+        from .c02 import PotsMonitor, real_strength_hb
+        r, ctx = sx.run(job, [PotsMonitor('C11', strength=real_strength_hb)], validated='terminals_compared')
+        return r
     spec = table_spec(job['cls'], 2, 4)
     mon = BettingMonitor('C11', spec=spec)
     from ..refs.dealing import DealingMonitor
@@ -260,7 +294,8 @@ def run_job(job):
 
 
 def sanity(agg, counters, fam, tier):
-    return [f'{k} == 0' for k in ('static_configurations_compared', 'cap_reached_states', 'split_scenarios', 'decisions_compared')
+    return [f'{k} == 0' for k in ('static_configurations_compared', 'cap_reached_states', 'split_scenarios', 'decisions_compared',
+                                  'terminals_with_a_type_made_only_by_a_non_contender_of_a_side_pot', 'terminals_with_side_pots')
             if not counters.get(k)]
 
 
